@@ -143,7 +143,12 @@ impl Generator {
                     // TUPLE to fail (it tries to pop until MARK, but if stack is
                     // all MARKs, it crashes with "list index out of range")
                     if !matches!(*top.borrow(), StackObject::Mark) {
-                        self.state.stack.inner.push(top.clone());
+                        // push a copy of the object (as GET and MEMOIZE do), not a second
+                        // handle to the same cell: with a shared cell a later
+                        // APPEND/SETITEM/BUILD stores the cell inside itself and the
+                        // reference cycle is never freed
+                        let copy = top.borrow().clone();
+                        self.push(copy);
                     }
                 }
             }
